@@ -121,6 +121,21 @@ func main() {
 		}
 		fmt.Println("total", tot, "undischarged", bad)
 		return
+	case "locks":
+		p, err := Load(nil, nil)
+		if err != nil {
+			os.Exit(2)
+		}
+		tot := 0
+		for _, fn := range p.ModFns {
+			n, leaks := p.lockBalance(fn)
+			tot += n
+			for _, l := range leaks {
+				fmt.Printf("%s: %s: %s on %s not released before the exit at %s\n", p.Pos(l.Lock.Pos()), FnName(fn), l.Kind, l.Recv, p.Pos(l.Exit))
+			}
+		}
+		fmt.Println("lock sites", tot)
+		return
 	case "apimust":
 		p, err := Load(nil, nil)
 		if err != nil {
